@@ -8,12 +8,14 @@ table as A left it, so the peer must decode A first. The code guarantees this by
 CONTINUATION frames to the connection inside ONE critical section. `Gen.H2WriteLock` regenerates, per function, the
 sequence of lock / unlock / deferred unlock / encode / frame-write actions in source order.
 
-* `atomicEncWrite`: some mutex is held from before the first encode action until after the last write action.
+* `heldAcross`: the mutexes held from before the first encode action until after the last write action;
+  `atomicEncWrite`: there is one; `commonGuard`: the mutexes in the guard of EVERY function of a connection side.
 * HPACK is modelled by its table discipline: a field that is in the dynamic table is sent as an index, any other field
   as a literal that both sides insert at the front (capacity `cap` entries, oldest evicted). Huffman / integer coding
   and byte-exact sizes are C18's subject.
-* writers: one per header block; a writer whose function is atomic performs `both` (encode + write) as one step (the
-  mutex excludes: trusted), otherwise `enc` and `wr` are separate steps that other writers can get between.
+* writers: one per header block, each a call of one of the functions: `enc` and `wr` are separate steps; a writer
+  cannot take its `enc` step while another writer that holds a mutex of the same NAME is between its `enc` and its `wr`
+  (sync.Mutex excludes per mutex: trusted); writers whose guards have no mutex in common interleave freely.
 Core Lean only.
 -/
 namespace MosnVerif.Model.HpackOrder
@@ -111,17 +113,34 @@ def decAll (cap : Nat) : Table → List Blk → Option (Table × List (Nat × Li
       | none => none
       | some (t'', out) => some (t'', (b.stream, fs) :: out)
 
-/-! ### concurrent writers -/
+/-! ### concurrent writers
 
-inductive U | both | enc | wr
+Locks are NAMED and exclude per name: a call holds its guard `heldAcross` (the mutexes held without interruption from its first
+encode to its last frame write) from its encode step to its write step. Another call can take its own encode step in
+between unless the two guards have a mutex in common. Two functions holding DIFFERENT mutexes interleave freely. -/
+
+/-- the mutexes a call holds from its first encode until after its last frame write (`[]`: none, or no encode / write) -/
+def heldAcross (acts : List Act) : List String :=
+  if acts.contains .enc && acts.contains .wr then
+    match walk [] none (uptoLastWr acts) with
+    | some g => g
+    | none => []
+  else []
+
+/-- the mutexes EVERY function of one connection side holds from its first encode to its last write -/
+def commonGuard : List Fn → List String
+  | [] => []
+  | f :: r => r.foldl (fun g f' => g.filter (heldAcross f'.acts).contains) (heldAcross f.acts)
+
+def shares (a b : List String) : Bool := a.any b.contains
+
+inductive U | enc | wr
   deriving DecidableEq, Repr
-
-/-- the steps of one call of a function with the given lock structure -/
-def units (acts : List Act) : List U := if atomicEncWrite acts then [.both] else [.enc, .wr]
 
 structure Sys where
   cap : Nat
   reqs : List (Nat × List Field)     -- writer i sends header list reqs[i].2 on stream reqs[i].1
+  guards : List (List String)        -- writer i holds the mutexes guards[i] from its encode to its write
   progs : List (List U)              -- remaining steps of writer i
   encT : Table
   pending : List (Nat × Blk)         -- (writer, encoded block not yet written)
@@ -129,26 +148,31 @@ structure Sys where
   sent : List (Nat × List Field)     -- what was encoded, in encode order
   deriving Repr
 
-def Sys.start (cap : Nat) (reqs : List (Nat × List Field)) (us : List U) : Sys :=
-  { cap := cap, reqs := reqs, progs := reqs.map (fun _ => us), encT := [], pending := [], wire := [], sent := [] }
+def Sys.start (cap : Nat) (reqs : List (Nat × List Field)) (guards : List (List String)) : Sys :=
+  { cap := cap, reqs := reqs, guards := guards, progs := reqs.map (fun _ => [.enc, .wr]), encT := [], pending := [],
+    wire := [], sent := [] }
+
+/-- writer i cannot enter: a writer between its encode and its write holds a mutex writer i needs -/
+def Sys.blocked (s : Sys) (g : List String) : Bool :=
+  s.pending.any (fun p => shares ((s.guards[p.1]?).getD []) g)
 
 def Sys.step (s : Sys) (i : Nat) : Sys :=
-  match s.progs[i]?, s.reqs[i]? with
-  | some (u :: rest), some (st, fs) =>
-    let s := { s with progs := s.progs.set i rest }
+  match s.progs[i]?, s.reqs[i]?, s.guards[i]? with
+  | some (u :: rest), some (st, fs), some g =>
     match u with
-    | .both =>
-      let b := encBlock s.cap s.encT fs
-      { s with encT := b.1, wire := s.wire ++ [⟨st, b.2⟩], sent := s.sent ++ [(st, fs)] }
     | .enc =>
+      if s.blocked g then s else
       let b := encBlock s.cap s.encT fs
-      { s with encT := b.1, pending := (i, ⟨st, b.2⟩) :: s.pending, sent := s.sent ++ [(st, fs)] }
+      { s with progs := s.progs.set i rest, encT := b.1, pending := (i, ⟨st, b.2⟩) :: s.pending, sent := s.sent ++ [(st, fs)] }
     | .wr =>
       match s.pending.find? (·.1 == i) with
-      | some (_, blk) => { s with wire := s.wire ++ [blk], pending := s.pending.filter (·.1 != i) }
-      | none => s
-  | _, _ => s
+      | some (_, blk) => { s with progs := s.progs.set i rest, wire := s.wire ++ [blk], pending := s.pending.filter (·.1 != i) }
+      | none => { s with progs := s.progs.set i rest }
+  | _, _, _ => s
 
 def Sys.run (s : Sys) (sched : List Nat) : Sys := sched.foldl Sys.step s
+
+/-- the blocks encoded but not yet written, oldest first -/
+def Sys.inFlight (s : Sys) : List Blk := s.pending.reverse.map (·.2)
 
 end MosnVerif.Model.HpackOrder
